@@ -749,8 +749,8 @@ def run_behaviour(ctx, fam, steps):
                 ctx.mismatch("stream_cond/%s" % tail, case, "step %d: a conditional distribution was sampled instead of refusing" % k,
                              "error", "returned %s" % type(s).__name__)
                 return True
-            if g1 != g0:
-                ctx.mismatch("stream_cond_global/%s" % tail, case, "step %d: refused sample consumed the global random state" % k)
+            if g1 != g0:      # not stated by the property: observed only
+                ctx.observations.setdefault("refused_sample_consumed_global_state", {})[fam.name] = True
             continue
         if err is not None:
             ctx.mismatch("stream_error/%s/N=%d/rng=%s" % (tail, N, "none" if r == "none" else type(rngs[r]).__name__), case,
@@ -768,6 +768,10 @@ def run_behaviour(ctx, fam, steps):
         old = fam.memo.get(key)
         if old is None:
             fam.memo[key] = a
+        elif r == "none":
+            # draws from the global stream: the property only speaks about a GIVEN generator - observed, not asserted
+            if old.shape != a.shape or not np.array_equal(old, a):
+                ctx.observations.setdefault("global_stream_draws_not_reproducible", {})[fam.name] = True
         elif old.shape != a.shape or not np.array_equal(old, a):
             ctx.mismatch("stream_determinism/%s/rng=%s" % (tail, "none" if r == "none" else type(rngs[r]).__name__), case,
                          "step %d: same distribution, N and generator state gave different draws" % k, old, a)
@@ -817,21 +821,21 @@ def _group_gmrf(cases):
 
 
 def tlc_jobs(ctx, jobs):
-    """Runs the TLC invocations `jobs` = [(cfg, workers, expect_violation)] concurrently (JVM start-up dominates) and
+    """Runs the TLC invocations `jobs` = [(cfg, workers, expect_violation, heap)] concurrently (JVM start-up dominates) and
     accounts them in the run context exactly like ctx.tlc does."""
     import os
     from concurrent.futures import ThreadPoolExecutor
     from cuqiverif import tlc as _tlc
 
     def one(job):
-        cfg, workers, expect = job
+        cfg, workers, expect, heap = job
         wd = os.path.join(_tlc.WORK, "Sampling-%d-%s" % (os.getpid(), cfg.replace(".cfg", "").replace("Sampling.", "")))
-        return _tlc.run_tlc("Sampling", cfg=cfg, workers=workers, timeout=1500, extra_modules=EXTRA, expect_violation=expect, workdir=wd)
+        return _tlc.run_tlc("Sampling", cfg=cfg, workers=workers, timeout=1500, extra_modules=EXTRA, expect_violation=expect, workdir=wd, heap=heap)
     with ThreadPoolExecutor(max_workers=len(jobs)) as ex:
         futs = [ex.submit(one, j) for j in jobs]
         out = []
         err = None
-        for (cfg, _, _), f in zip(jobs, futs):
+        for (cfg, _, _, _), f in zip(jobs, futs):
             try:
                 res = f.result()
             except Exception as e:          # let the other JVMs finish, then report the first failure
@@ -851,8 +855,10 @@ def tlc_jobs(ctx, jobs):
 def run(ctx):
     from cuqiverif import tlc as _tlc
     thorough = ctx.tier == "thorough"
-    jobs = [("Sampling.cases.%s.cfg" % ctx.tier, 8, False), ("Sampling.stream.%s.cfg" % ctx.tier, 4, False),
-            ("Sampling.deep.%s.cfg" % ctx.tier, 4, False)] + [(cfg, 2, True) for cfg, _ in DEVIATIONS]
+    # the second stream deviation (same constant, other invariant) is run in the thorough tier only
+    devs = [d for d in DEVIATIONS if thorough or d[0] != "Sampling.dev.ignores_rng_det.cfg"]
+    jobs = [("Sampling.cases.%s.cfg" % ctx.tier, 8, False, "2g"), ("Sampling.stream.%s.cfg" % ctx.tier, 4, False, "2g"),
+            ("Sampling.deep.%s.cfg" % ctx.tier, 2, False, "1g")] + [(cfg, 2, True, "1g") for cfg, _ in devs]
     results = tlc_jobs(ctx, jobs)
     res, res3, res4 = results[:3]
     # ---- model checking + case emission (facets 1, 2)
@@ -868,11 +874,11 @@ def run(ctx):
         if res.ok and not kinds.get(k):
             machinery("vacuous: no %s case emitted" % k)
     # ---- named deviations: each must produce a counterexample to its invariant (non-vacuity, design-level explanation)
-    for (cfg, inv), r in zip(DEVIATIONS, results[3:]):
+    for (cfg, inv), r in zip(devs, results[3:]):
         _tlc.cleanup(r)
         if r.violated != inv:
             machinery("deviation run %s did not violate %s (got %r): invariant is vacuous" % (cfg, inv, r.violated))
-    ctx.observations["deviation_runs"] = {cfg: inv for cfg, inv in DEVIATIONS}
+    ctx.observations["deviation_runs"] = {cfg: inv for cfg, inv in devs}
     # ---- replay facets 1, 2
     Ns = (1, 3)
     for c in kinds.get("gauss", []):
